@@ -131,6 +131,17 @@ def commitInWindow (s : OptMon) (r : OptRec) : Bool :=
 def optRes (s : OptMon) (tid : Nat) (opName : String) (a b : Nat) (res : String) : OptMon :=
   let e := s.lastOf tid
   if opName == "setver" then { s with explicitVals := s.explicitVals ++ [b % 2 ^ 32] }
+  else if opName == "xver" then
+    -- `now/atGrant`: the second was checked against the granting step's word when the guard was granted (token XB)
+    match res.splitOn "/" with
+    | [nowS, thenS] =>
+      match hexNat nowS, hexNat thenS with
+      | some now, some atGrant =>
+        if now != atGrant then
+          s.flag s!"verdisc: XGuard::GetVersion reports {now} later in the section, but the version at the granting step was {atGrant}"
+        else s
+      | _, _ => s.flag s!"malformed xver result {res}"
+    | _ => s.flag s!"malformed xver result {res}"
   else if opName == "getver" then
     match hexNat res with
     | some v =>
